@@ -12,8 +12,6 @@ namespace Proofs.Mvp60Sl
 open Model Model.Mvp60
 open Model.Seq (App Halt Arch stepArch)
 
-theorem get_lt {α : Type} (l : List α) (i : Nat) (h : i < l.length) : ∃ a, l[i]? = some a :=
-  ⟨l[i], List.getElem?_eq_getElem h⟩
 
 /-! ### the fetch unit -/
 
@@ -168,6 +166,41 @@ theorem slr_of_sl (app : App) (h : StraightLine app = true) : StraightLineRet ap
   simp only [slInstr, slrInstr, Bool.and_eq_true] at this ⊢
   exact this.1
 
+theorem g_of_get (app : App) (hg : ProvedClass app = true) (k : Nat) (i : Gen.Instr) (h : app.instrs[k]? = some i) :
+    gInstr app i = true := by
+  simp only [ProvedClass, Bool.and_eq_true, List.all_eq_true] at hg
+  exact hg.1 i (List.mem_of_getElem? h)
+
+theorem labelOf_none_of_not_branch (i : Gen.Instr) (h : i.instructionType.IsBranch = false) : labelOf i = none := by
+  cases i <;> first | rfl | (simp [Gen.Instr.instructionType, Gen.InstructionType.IsBranch, Gen.InstructionType.IsUnconditionalBranch,
+    Gen.InstructionType.IsConditionalBranch, Gen.op_beq.InstructionType, Gen.op_beqz.InstructionType, Gen.op_bge.InstructionType,
+    Gen.op_bgeu.InstructionType, Gen.op_ble.InstructionType, Gen.op_blt.InstructionType, Gen.op_bltu.InstructionType,
+    Gen.op_bne.InstructionType, Gen.op_bnez.InstructionType, Gen.op_j.InstructionType, Gen.op_jal.InstructionType] at h)
+
+theorem proved_of_slr (app : App) (h : StraightLineRet app = true) : ProvedClass app = true := by
+  simp only [StraightLineRet, List.all_eq_true] at h
+  simp only [ProvedClass, Bool.and_eq_true, Bool.or_eq_true, List.all_eq_true]
+  refine ⟨fun i hi => ?_, Or.inr fun i hi => ?_⟩
+  · have := h i hi
+    simp only [slrInstr, Bool.and_eq_true, Bool.not_eq_true'] at this
+    have hb := this.2
+    simp only [Gen.InstructionType.IsBranch, Bool.or_eq_false_iff] at hb
+    simp only [gInstr, labelOk, labelOf_none_of_not_branch i this.2, this.1, hb.1, Bool.not_false, Bool.and_self]
+  · have := h i hi
+    simp only [slrInstr, Bool.and_eq_true, Bool.not_eq_true', Gen.InstructionType.IsBranch, Bool.or_eq_false_iff] at this
+    simp only [this.2.2, Bool.not_false]
+
+theorem proved_of_branchOnly (app : App) (h : BranchOnly app = true) : ProvedClass app = true := by
+  simp only [BranchOnly, List.all_eq_true] at h
+  simp only [ProvedClass, Bool.and_eq_true, Bool.or_eq_true, List.all_eq_true]
+  refine ⟨fun i hi => ?_, Or.inl fun i hi => ?_⟩
+  · have := h i hi
+    simp only [brInstr, Bool.and_eq_true] at this
+    simp only [gInstr, this.1.1.1, this.1.2, this.2, Bool.and_self]
+  · have := h i hi
+    simp only [brInstr, Bool.and_eq_true] at this
+    exact this.1.1.2
+
 theorem instrAt_pcOf (app : App) (k : Nat) (hk : k < 2 ^ 20) (i : Gen.Instr) (h : app.instrs[k]? = some i) :
     instrAt app (pcOf k) = .ok i := by
   unfold instrAt
@@ -175,7 +208,7 @@ theorem instrAt_pcOf (app : App) (k : Nat) (hk : k < 2 ^ 20) (i : Gen.Instr) (h 
   have : ¬ ((k : Int) < 0) := by omega
   simp only [this, if_false, Int.toNat_natCast, h, pure, Except.pure]
 
-theorem decodeLoop_front (app : App) (hsm : app.instrs.length < 250) (hsl : StraightLineRet app = true) (ctx : Model.Context)
+theorem decodeLoop_front (app : App) (hsm : app.instrs.length < 250) (hsl : ProvedClass app = true) (ctx : Model.Context)
     (c : Int) (fu : FetchUnit) (k : Nat) :
     ∀ (n : Nat) (du du' : DecodeUnit) (inBus inBus' : BufferedBus Word) (outBus outBus' : BufferedBus Runner),
     Chain app k outBus.inside → k + outBus.inside.length ≤ app.instrs.length →
@@ -230,9 +263,9 @@ theorem decodeLoop_front (app : App) (hsm : app.instrs.length < 250) (hsl : Stra
           · omega
         obtain ⟨i, hi⟩ := get_lt app.instrs h0 (by omega)
         rw [hp, instrAt_pcOf app h0 hh i hi] at hr
-        have hsli := sl_of_get app hsl h0 i hi
-        simp only [slrInstr, Bool.and_eq_true, Bool.not_eq_true', Gen.InstructionType.IsBranch, Bool.or_eq_false_iff] at hsli
-        obtain ⟨_, hub, _⟩ := hsli
+        have hsli := g_of_get app hsl h0 i hi
+        simp only [gInstr, Bool.and_eq_true, Bool.not_eq_true'] at hsli
+        obtain ⟨⟨_, hub⟩, _⟩ := hsli
         simp only [hub, Bool.false_eq_true, if_false] at hr
         have := ih _ du' _ inBus' _ outBus'
           (by rw [inside_add, chain_append]; exact ⟨h1, ⟨⟨by rw [← hw], by rw [← hw]; exact hi⟩, trivial⟩⟩)
@@ -249,20 +282,66 @@ theorem decodeLoop_front (app : App) (hsm : app.instrs.length < 250) (hsl : Stra
         refine ⟨this.1, this.2.1, this.2.2.1, ?_, this.2.2.2.2⟩
         rw [this.2.2.2.1]; split <;> rfl
 
+/-- every runner the decode unit adds carries the sequence id `pc + ctx.sequenceID * 1000` -/
+theorem decodeLoop_seq (app : App) (ctx : Model.Context) (c : Int) :
+    ∀ (n : Nat) (du du' : DecodeUnit) (inBus inBus' : BufferedBus Word) (outBus outBus' : BufferedBus Runner),
+    decodeLoop app ctx c n du inBus outBus = .ok (du', inBus', outBus') →
+    ∀ r ∈ outBus'.inside, r ∈ outBus.inside ∨ r.seq = r.pc + ctx.sequenceID * 1000#32 := by
+  intro n
+  induction n with
+  | zero =>
+    intro du du' inBus inBus' outBus outBus' hr r hmem
+    simp only [decodeLoop, pure, Except.pure, Except.ok.injEq, Prod.mk.injEq] at hr
+    obtain ⟨_, _, rfl⟩ := hr
+    exact Or.inl hmem
+  | succ n ih =>
+    intro du du' inBus inBus' outBus outBus' hr r hmem
+    simp only [decodeLoop] at hr
+    cases hq : inBus.queue with
+    | nil =>
+      simp only [get_none _ hq, pure, Except.pure, Except.ok.injEq, Prod.mk.injEq] at hr
+      obtain ⟨_, _, rfl⟩ := hr
+      exact Or.inl hmem
+    | cons p q =>
+      simp only [get_some _ p q hq] at hr
+      split at hr
+      · simp only [pure, Except.pure, Except.ok.injEq, Prod.mk.injEq] at hr
+        obtain ⟨_, _, rfl⟩ := hr
+        exact Or.inl hmem
+      · simp only [bind, Except.bind] at hr
+        split at hr
+        · cases hr
+        · rename_i i hi
+          split at hr
+          · simp only [pure, Except.pure, Except.ok.injEq, Prod.mk.injEq] at hr
+            obtain ⟨_, _, rfl⟩ := hr
+            rw [inside_add] at hmem
+            rcases List.mem_append.mp hmem with h | h
+            · exact Or.inl h
+            · simp only [List.mem_singleton] at h; subst h; exact Or.inr rfl
+          · rcases ih _ du' _ inBus' _ outBus' hr r hmem with h | h
+            · rw [inside_add] at h
+              rcases List.mem_append.mp h with h | h
+              · exact Or.inl h
+              · simp only [List.mem_singleton] at h; subst h; exact Or.inr rfl
+            · exact Or.inr h
+
 /-! ### the control unit -/
 
 /-- the runners `rs` were issued in this order in cycle `c`, each free of hazards against the scoreboards at its turn; a `ret`
-only onto an empty execute bus, and nothing behind it -/
-inductive Issued (c : Int) : List Runner → Model.Context × BufferedBus Runner → Model.Context × BufferedBus Runner → Prop
-  | nil (x) : Issued c [] x x
-  | cons (r rs ctx bus y) : isDataHazard3 ctx r.instr = false →
+only onto an empty execute bus, and nothing behind it; a branch only as the first of the cycle (`p` = number issued before) -/
+inductive Issued (c : Int) : Int → List Runner → Model.Context × BufferedBus Runner → Model.Context × BufferedBus Runner → Prop
+  | nil (p x) : Issued c p [] x x
+  | cons (p r rs ctx bus y) : isDataHazard3 ctx r.instr = false →
       ((r.instr.instructionType == Gen.InstructionType.Ret) = true → bus.isEmpty = true ∧ rs = []) →
-      Issued c rs (addPendingRegisters ctx r.instr, bus.add r c) y → Issued c (r :: rs) (ctx, bus) y
+      (r.instr.instructionType.IsBranch = true → p ≤ 0) →
+      Issued c (p + 1) rs (addPendingRegisters ctx r.instr, bus.add r c) y → Issued c p (r :: rs) (ctx, bus) y
 
 theorem handleRunner_cases (ctx : Model.Context) (bus : BufferedBus Runner) (c p : Int) (r : Runner) :
     (handleRunner ctx bus c p r = ((false, true), ctx, bus)) ∨
     (isDataHazard3 ctx r.instr = false ∧
       ((r.instr.instructionType == Gen.InstructionType.Ret) = true → bus.isEmpty = true) ∧
+      (r.instr.instructionType.IsBranch = true → p ≤ 0) ∧
       handleRunner ctx bus c p r = ((true, r.instr.instructionType == Gen.InstructionType.Ret), addPendingRegisters ctx r.instr, bus.add r c)) := by
   unfold handleRunner
   simp only
@@ -271,51 +350,79 @@ theorem handleRunner_cases (ctx : Model.Context) (bus : BufferedBus Runner) (c p
   · rename_i h1
     split
     · left; rfl
-    · split
+    · rename_i h2
+      split
       · left; rfl
       · rename_i h3
         right
-        refine ⟨by simpa using h3, ?_, rfl⟩
-        intro hret
-        simp only [hret, Bool.true_and, Bool.not_eq_true', Bool.not_eq_false'] at h1
-        simpa using h1
+        refine ⟨by simpa using h3, ?_, ?_, rfl⟩
+        · intro hret
+          simp only [hret, Bool.true_and, Bool.not_eq_true', Bool.not_eq_false'] at h1
+          simpa using h1
+        · intro hb
+          simp only [hb, Bool.and_true, decide_eq_true_eq] at h2
+          omega
 
 theorem cuBusLoop_spec (c : Int) : ∀ (n : Nat) (st : CuSt), st.pendings.items = [] →
-    ∃ pushed, Issued c pushed (st.ctx, st.outBus) ((cuBusLoop c n st).ctx, (cuBusLoop c n st).outBus) ∧
+    ∃ pushed, Issued c st.pushed pushed (st.ctx, st.outBus) ((cuBusLoop c n st).ctx, (cuBusLoop c n st).outBus) ∧
       pushed ++ (cuBusLoop c n st).pendings.items.map (·.2) ++ (cuBusLoop c n st).inBus.inside = st.inBus.inside ∧
       (cuBusLoop c n st).pendings.items.length ≤ 1 := by
   intro n
   induction n with
-  | zero => intro st hp; exact ⟨[], Issued.nil _, by simp [cuBusLoop, hp], by simp [cuBusLoop, hp]⟩
+  | zero => intro st hp; exact ⟨[], Issued.nil _ _, by simp [cuBusLoop, hp], by simp [cuBusLoop, hp]⟩
   | succ n ih =>
     intro st hp
     simp only [cuBusLoop]
     split
-    · exact ⟨[], Issued.nil _, by simp [hp], by simp [hp]⟩
+    · exact ⟨[], Issued.nil _ _, by simp [hp], by simp [hp]⟩
     · cases hq : st.inBus.queue with
       | nil =>
         simp only [get_none _ hq]
-        exact ⟨[], Issued.nil _, by simp [hp], by simp [hp]⟩
+        exact ⟨[], Issued.nil _ _, by simp [hp], by simp [hp]⟩
       | cons r q =>
         simp only [get_some _ r q hq]
         have hin : st.inBus.inside = r :: ({ st.inBus with queue := q } : BufferedBus Runner).inside := by
           simp only [BufferedBus.inside, hq, List.cons_append]
-        rcases handleRunner_cases st.ctx st.outBus c st.pushed r with hh | ⟨hz, hre, hh⟩
+        rcases handleRunner_cases st.ctx st.outBus c st.pushed r with hh | ⟨hz, hre, hbr, hh⟩
         · simp only [hh, Bool.false_eq_true, if_false, if_true]
-          refine ⟨[], Issued.nil _, ?_, ?_⟩
+          refine ⟨[], Issued.nil _ _, ?_, ?_⟩
           · simp only [Queue.push, hp, List.nil_append, List.map_cons, List.map_nil, hin, List.cons_append]
           · simp only [Queue.push, hp, List.nil_append, List.length_cons, List.length_nil]; omega
         · simp only [hh, if_true]
           split
-          · refine ⟨[r], Issued.cons r [] _ _ _ hz (fun h => ⟨hre h, rfl⟩) (Issued.nil _), ?_, ?_⟩
+          · refine ⟨[r], Issued.cons _ r [] _ _ _ hz (fun h => ⟨hre h, rfl⟩) hbr (Issued.nil _ _), ?_, ?_⟩
             · simp only [hp, List.map_nil, List.append_nil, hin, List.cons_append, List.nil_append]
             · simp only [hp, List.length_nil]; omega
           · rename_i hnr
             obtain ⟨pushed, i1, i2, i3⟩ := ih
               { st with inBus := { st.inBus with queue := q }, ctx := addPendingRegisters st.ctx r.instr,
                         outBus := st.outBus.add r c, remaining := st.remaining - 1, pushed := st.pushed + 1 } hp
-            refine ⟨r :: pushed, Issued.cons r pushed _ _ _ hz (fun h => absurd h hnr) i1, ?_, i3⟩
+            refine ⟨r :: pushed, Issued.cons _ r pushed _ _ _ hz (fun h => absurd h hnr) hbr i1, ?_, i3⟩
             rw [hin, List.cons_append, List.cons_append, i2]
+
+theorem issued_sid {c p : Int} {rs : List Runner} {x y : Model.Context × BufferedBus Runner} (h : Issued c p rs x y) :
+    y.1.sequenceID = x.1.sequenceID ∧ y.1.Registers = x.1.Registers ∧ y.1.Memory = x.1.Memory := by
+  induction h with
+  | nil p x => exact ⟨rfl, rfl, rfl⟩
+  | cons p r rs ctx bus y _ _ _ _ ih => exact ih
+
+/-- a branch among the runners issued in one cycle is the first of them -/
+theorem issued_branch_head {c p : Int} {rs : List Runner} {x y : Model.Context × BufferedBus Runner} (h : Issued c p rs x y) :
+    ∀ pre b post, rs = pre ++ b :: post → b.instr.instructionType.IsBranch = true → (pre.length : Int) + p ≤ 0 := by
+  induction h with
+  | nil p x => intro pre b post h; cases pre <;> cases h
+  | cons p r rs ctx bus y _ _ hbr _ ih =>
+    intro pre b post h hb
+    cases pre with
+    | nil =>
+      simp only [List.nil_append, List.cons.injEq] at h
+      obtain ⟨rfl, _⟩ := h
+      have := hbr hb
+      simp only [List.length_nil, Int.natCast_zero, Int.zero_add]; exact this
+    | cons q pre' =>
+      simp only [List.cons_append, List.cons.injEq] at h
+      have := ih pre' b post h.2 hb
+      simp only [List.length_cons, Int.natCast_add, Int.natCast_one]; omega
 
 /-- everything `controlCycle` leaves alone -/
 structure CuFrame (s s' : State) : Prop where
@@ -338,7 +445,7 @@ def cuLoops (c : Int) (items : List (Nat × Runner)) (st0 : CuSt) : CuSt :=
   if r.2 then r.1 else cuBusLoop c (r.1.inBus.pendingRead.toNat + 1) r.1
 
 theorem cuLoops_spec (c : Int) (st0 : CuSt) : ∀ (items : List (Nat × Runner)), st0.pendings.items = items → items.length ≤ 1 →
-    ∃ pushed, Issued c pushed (st0.ctx, st0.outBus) ((cuLoops c items st0).ctx, (cuLoops c items st0).outBus) ∧
+    ∃ pushed, Issued c st0.pushed pushed (st0.ctx, st0.outBus) ((cuLoops c items st0).ctx, (cuLoops c items st0).outBus) ∧
       pushed ++ (cuLoops c items st0).pendings.items.map (·.2) ++ (cuLoops c items st0).inBus.inside =
         items.map (·.2) ++ st0.inBus.inside ∧
       (cuLoops c items st0).pendings.items.length ≤ 1
@@ -348,15 +455,15 @@ theorem cuLoops_spec (c : Int) (st0 : CuSt) : ∀ (items : List (Nat × Runner))
     exact ⟨pushed, i1, by simpa using i2, i3⟩
   | [(hd, r)], hit, _ => by
     simp only [cuLoops, cuPendingLoop]
-    rcases handleRunner_cases st0.ctx st0.outBus c st0.pushed r with hh | ⟨hz, hre, hh⟩
+    rcases handleRunner_cases st0.ctx st0.outBus c st0.pushed r with hh | ⟨hz, hre, hbr, hh⟩
     · simp only [hh, Bool.false_eq_true, if_false, if_true]
-      exact ⟨[], Issued.nil _, by simp [hit], by simp [hit]⟩
+      exact ⟨[], Issued.nil _ _, by simp [hit], by simp [hit]⟩
     · simp only [hh, if_true]
       have hrem : (st0.pendings.remove hd).items = [] := by
         simp only [Queue.remove, hit, List.filter_cons, bne_self_eq_false, Bool.false_eq_true, if_false, List.filter_nil]
       split
       · simp only [if_true]
-        exact ⟨[r], Issued.cons r [] _ _ _ hz (fun h => ⟨hre h, rfl⟩) (Issued.nil _), by simp [hrem], by simp [hrem]⟩
+        exact ⟨[r], Issued.cons _ r [] _ _ _ hz (fun h => ⟨hre h, rfl⟩) hbr (Issued.nil _ _), by simp [hrem], by simp [hrem]⟩
       · rename_i hnr
         simp only [cuPendingLoop, Bool.false_eq_true, if_false]
         obtain ⟨pushed, i1, i2, i3⟩ := cuBusLoop_spec c
@@ -364,7 +471,7 @@ theorem cuLoops_spec (c : Int) (st0 : CuSt) : ∀ (items : List (Nat × Runner))
                        pendings := st0.pendings.remove hd, remaining := st0.remaining - 1, pushed := st0.pushed + 1 } : CuSt).inBus.pendingRead.toNat + 1)
           { st0 with ctx := addPendingRegisters st0.ctx r.instr, outBus := st0.outBus.add r c,
                      pendings := st0.pendings.remove hd, remaining := st0.remaining - 1, pushed := st0.pushed + 1 } hrem
-        exact ⟨r :: pushed, Issued.cons r pushed _ _ _ hz (fun h => absurd h hnr) i1,
+        exact ⟨r :: pushed, Issued.cons _ r pushed _ _ _ hz (fun h => absurd h hnr) hbr i1,
           by simp only [List.map_cons, List.map_nil, List.cons_append, List.nil_append] at i2 ⊢; rw [i2], i3⟩
   | _ :: _ :: _, _, hl => by simp only [List.length_cons] at hl; omega
 
@@ -377,13 +484,13 @@ theorem controlCycle_eq (s : State) : controlCycle s =
       { s with ctx := st.ctx, controlBus := st.inBus, executeBus := st.outBus, cuPendings := st.pendings } := rfl
 
 theorem controlCycle_spec (s : State) (hp : s.cuPendings.items.length ≤ 1) :
-    ∃ pushed, Issued s.cycles pushed (s.ctx, s.executeBus) ((controlCycle s).ctx, (controlCycle s).executeBus) ∧
+    ∃ pushed, Issued s.cycles 0 pushed (s.ctx, s.executeBus) ((controlCycle s).ctx, (controlCycle s).executeBus) ∧
       pushed ++ (controlCycle s).cuPendings.items.map (·.2) ++ (controlCycle s).controlBus.inside =
         s.cuPendings.items.map (·.2) ++ s.controlBus.inside ∧
       (controlCycle s).cuPendings.items.length ≤ 1 ∧ CuFrame s (controlCycle s) := by
   rw [controlCycle_eq]
   split
-  · exact ⟨[], Issued.nil _, by simp, hp, ⟨rfl, rfl, rfl, rfl, rfl, rfl, rfl, rfl, rfl, rfl, rfl, rfl⟩⟩
+  · exact ⟨[], Issued.nil _ _, by simp, hp, ⟨rfl, rfl, rfl, rfl, rfl, rfl, rfl, rfl, rfl, rfl, rfl, rfl⟩⟩
   · obtain ⟨pushed, i1, i2, i3⟩ := cuLoops_spec s.cycles
       { ctx := s.ctx, inBus := s.controlBus, outBus := s.executeBus, pendings := s.cuPendings,
         remaining := s.executeBus.remainingToAdd, pushed := 0 } s.cuPendings.items rfl hp
